@@ -15,3 +15,7 @@ package move
 //@   trusted ghost definition: cnt counts the calls Alloc(gm); the stored element and the bounds of the store are not part of property C01
 //@   ensures cnt == old(cnt) + b2i(m == gm)
 //@   modifies cnt, s.allocIx, s.data.*
+//@
+//@ # for the picker (C16) Alloc is executed in place: it stores {m, 0} at data[allocIx] and advances
+//@ func (*Store).Alloc view picker
+//@   inline
